@@ -55,6 +55,9 @@ type checkpoint struct {
 }
 
 func (s *checkpoint) Save() {
+	s.saveLock.Lock()
+	defer s.saveLock.Unlock()
+
 	offsets, dirtyOffsets, anyDirtyOffset := s.stream.GetOffsets()
 
 	if !anyDirtyOffset {
@@ -62,8 +65,22 @@ func (s *checkpoint) Save() {
 		return
 	}
 
-	s.saveLock.Lock()
-	defer s.saveLock.Unlock()
+	// From here on acknowledgements mark a fresh dirty set, so a position that is settled
+	// while the store call is in flight stays marked after a successful save.
+	s.stream.UnmarkDirtyOffsets()
+
+	dirtyOffsetsDump := map[uint16]bool{}
+	var dirtyOffsetCount int
+
+	dirtyOffsets.Range(func(vbID uint16, dirt bool) bool {
+		if dirt {
+			dirtyOffsetCount++
+		}
+
+		dirtyOffsetsDump[vbID] = dirt
+
+		return true
+	})
 
 	checkpointDump := map[uint16]*models.CheckpointDocument{}
 
@@ -83,19 +100,6 @@ func (s *checkpoint) Save() {
 		return true
 	})
 
-	dirtyOffsetsDump := map[uint16]bool{}
-	var dirtyOffsetCount int
-
-	dirtyOffsets.Range(func(vbID uint16, dirt bool) bool {
-		if dirt {
-			dirtyOffsetCount++
-		}
-
-		dirtyOffsetsDump[vbID] = dirt
-
-		return true
-	})
-
 	s.metric.OffsetWrite = dirtyOffsetCount
 
 	start := time.Now()
@@ -106,9 +110,9 @@ func (s *checkpoint) Save() {
 
 	if err == nil {
 		logger.Log.Trace("saved checkpoint")
-		s.stream.UnmarkDirtyOffsets()
 	} else {
 		logger.Log.Error("error while saving checkpoint document: %v", err)
+		s.stream.MarkDirtyOffsets(dirtyOffsetsDump)
 	}
 }
 
